@@ -128,7 +128,7 @@ def streams(tier, rng):
     for k, (segs, ids) in enumerate(layouts):
         st = make_stream(rng, ids, segs)
         n = len(st)
-        full = big or k < 2 or n <= 12
+        full = big or k < 1 or n <= 12
         for m in range(1 << (n - 1)):
             if not full and m % 8 != 0 and m < (1 << (n - 1)) - 64:
                 continue
